@@ -1,8 +1,10 @@
-"""C34 — the identity map holds at most one object per row: the _WeakInstanceDict container and the hand-over of a released
-SAVEPOINT's bookkeeping (new / dirty / deleted / primary-key switches) to the enclosing transaction under proof."""
+"""C34 — the identity map holds at most one object per row: the _WeakInstanceDict container, the registration of flushed states
+incl. primary-key switches (Session._register_persistent) and the hand-over of a released SAVEPOINT's bookkeeping (new / dirty /
+deleted / primary-key switches) to the enclosing transaction under proof."""
 import importlib
 import contracts.identity  # noqa: F401
 import contracts.session_snapshot  # noqa: F401
+import contracts.session_register  # noqa: F401
 from pyvc.contract import FUNCS
 from vlib.proof import run_proofs
 from vlib.bounded import run_bounded
@@ -25,5 +27,10 @@ def run(run, tier, seed, args):
         "liveness of a weakly referenced object (state.obj() is None) does not change during one container call: the `except KeyError` GC-race arms are proved unreachable sequentially",
         "dictionary keys compare by value identity of the modelled key (identity keys are tuples of hashable values)",
         "SessionTransaction._remove_snapshot: only the SAVEPOINT-release arm is under proof (precondition self.nested); _restore_snapshot (which uses the recorded key switches on rollback) is in the bounded complement",
+        "Session._register_persistent: mapper._identity_key_from_state(state) is an uninterpreted pure function of the state (the identity key its current primary key gives), "
+        "_state_mapper / state_str / _none_set tests are havocked values, util.warn / _register_altered / the pending_to_persistent event / self._new.pop are no-ops on the "
+        "modelled fields; InstanceState._commit_all_states is an ASSUMED summary here (touches neither the flushed-states set, the key switches, the identity map's mapping nor "
+        "any identity key; its own contract is proved under C48); the assumed precondition (no stale binding of a flushed state, keys None or non-empty tuples, containers not "
+        "aliased) is evaluated at every real call in the bounded complement (clause P)",
         "outside the proof: loading._instance_processor lookup-before-create, Session.get's no-SQL path (bounded complement only), the database",
     ]
